@@ -64,8 +64,50 @@ type scanSpec struct {
 	Tries     map[string]int `json:"tries,omitempty"`
 	// RefreshFails: the first k provider refreshes of the scan fail (RunOnce sleeps 5 s and rebuilds the provider after each)
 	RefreshFails int      `json:"refresh_fails,omitempty"`
+	// RefreshSeq: explicit outcomes of the successive refresh / rebuild describes (overrides RefreshFails)
+	RefreshSeq []bool     `json:"refresh_seq,omitempty"`
 	Note      string      `json:"note,omitempty"`
 	Known     string      `json:"known_finding,omitempty"`
+}
+
+// refreshPlan: the outcomes of the DescribeAutoScalingGroups calls of RunOnce's prelude (Refresh, then Build and Refresh per retry).
+func (s *scanSpec) refreshPlan() []bool {
+	if s.RefreshSeq != nil {
+		return append([]bool{}, s.RefreshSeq...)
+	}
+	out := []bool{}
+	for i := 0; i < s.RefreshFails; i++ {
+		out = append(out, false)
+	}
+	return out
+}
+
+// preludeSleeps: how many 5 s sleeps RunOnce's retry loop takes under the plan (mirrors the loop's control flow only to size
+// the harness's real-time tolerances).
+func (s *scanSpec) preludeSleeps() int {
+	plan := s.refreshPlan()
+	next := func() bool {
+		if len(plan) == 0 {
+			return true
+		}
+		v := plan[0]
+		plan = plan[1:]
+		return v
+	}
+	if next() {
+		return 0
+	}
+	n := 0
+	for i := 0; i < 2; i++ {
+		n++
+		if !next() { // Build fails: RunOnce returns
+			return n
+		}
+		if next() {
+			return n
+		}
+	}
+	return n
 }
 
 // rebase moves every absolute time of the spec from BaseSec to newBase.
@@ -319,6 +361,7 @@ func newWorld(s *scanSpec) (*world, error) {
 	w.pods.onList = func() {
 		w.sim.mu.Lock()
 		w.sim.curIdx++
+		w.sim.describeAsRefresh = 0 // the prelude is over: later describes belong to createTemplateOverrides
 		w.sim.mu.Unlock()
 	}
 	w.sim.curGroup = func() string {
@@ -363,7 +406,15 @@ func (w *world) build() error {
 	cs := fake.NewSimpleClientset()
 	cs.PrependReactor("*", "nodes", w.api.react)
 	copts := controller.Opts{K8SClient: cs, NodeGroups: opts, DryMode: s.GlobalDry, ScanInterval: time.Minute,
-		CloudProviderBuilder: simBuilder{build: func() (cloudprovider.CloudProvider, error) { return prov, nil }}}
+		// like aws.Builder.Build: a new provider over the same services, registering the node groups (one describe)
+		CloudProviderBuilder: simBuilder{build: func() (cloudprovider.CloudProvider, error) {
+			np, err := awsprov.VerifNewCloudProvider(simAutoscaling{s: w.sim}, simEC2{s: w.sim}, configs...)
+			if err != nil {
+				return nil, err
+			}
+			w.prov = np
+			return np, nil
+		}}}
 	ctl, err := controller.VerifNewController(copts, prov, w.pods, w.nodes)
 	if err != nil {
 		return err
@@ -442,8 +493,8 @@ func (w *world) scanOnce(setState bool) scanObs {
 	w.sim.mu.Lock()
 	w.sim.ResetCounters()
 	w.sim.record = true
-	w.sim.describeAsRefresh = 1 + s.RefreshFails
-	w.sim.refreshFailN = s.RefreshFails
+	w.sim.describeAsRefresh = 1000 // every describe before the first group's scan is a provider refresh (or rebuild)
+	w.sim.refreshPlan = s.refreshPlan()
 	w.sim.curIdx = 0
 	w.sim.mu.Unlock()
 	obs.Start = time.Now()
@@ -505,7 +556,7 @@ func (w *world) scanOnce(setState bool) scanObs {
 // slowLimit: how much real time a scan may take before its real-clock tolerances (taint stamp within 3 s, margins of
 // 3 s around lock / max_node_age / lastScaleOut comparisons) are in doubt: 1.5 s, plus 2.5 s per fleet-mode group.
 func slowLimit(s *scanSpec) time.Duration {
-	d := 1500*time.Millisecond + time.Duration(s.RefreshFails)*5200*time.Millisecond
+	d := 1500*time.Millisecond + time.Duration(s.preludeSleeps())*5200*time.Millisecond
 	for _, a := range s.Cloud {
 		if a.Template != "" {
 			d += 2500 * time.Millisecond
@@ -646,7 +697,7 @@ func canonTime(post, pre time.Time, preModel *int64, obs *scanObs) *int64 {
 
 func emitScanCase(s *scanSpec, obs *scanObs) (string, string, bool, string) {
 	in := NewInterner()
-	in.stampSlack = 6 * int64(s.RefreshFails)
+	in.stampSlack = 6 * int64(s.preludeSleeps())
 	nowNs := obs.NowNs
 	nowSec := s.BaseSec
 	groups := []string{}
@@ -716,7 +767,11 @@ func emitScanCase(s *scanSpec, obs *scanObs) (string, string, bool, string) {
 		keyParts += fmt.Sprintf("|%d|%v|%d", g.State.ScaleDelta, g.State.Locked, g.Desired)
 	}
 	nontrivial = ncalls > 0
-	coq := fmt.Sprintf("(Build_scan_case %s %s %s)", snap, clist(og), cz(int64(obs.Out)))
+	plan := []string{}
+	for _, b := range s.refreshPlan() {
+		plan = append(plan, cbool(b))
+	}
+	coq := fmt.Sprintf("(Build_scan_case %s %s %s %s)", snap, clist(plan), clist(og), cz(int64(obs.Out)))
 	key := fmt.Sprintf("%x|%d", hashJSON(keyParts), obs.Out)
 	cls := fmt.Sprintf("groups=%d out=%d calls<=%d", len(s.Groups), obs.Out, bucket(ncalls))
 	return coq, key, nontrivial, cls
